@@ -88,8 +88,11 @@ def shards(tier, seed):
         out.append({"kind": "rt", "name": f"rt-{nit}{i}", "nit": nit, "n": 700 if q else 9000,
                     "part": i})
     out.append({"kind": "rtx", "name": "rt-xreg", "n": 500 if q else 8000})
-    out.append({"kind": "containers", "name": "containers", "n": 1500 if q else 40000})
-    out.append({"kind": "exceptions", "name": "exceptions", "n": 12 if q else 150})
+    if q:
+        out.append({"kind": "misc", "name": "containers+exceptions", "n": 1500, "n_exc": 12})
+    else:
+        out.append({"kind": "containers", "name": "containers", "n": 40000})
+        out.append({"kind": "exceptions", "name": "exceptions", "n_exc": 150})
     modes = ("lazy", "set-float", "set-decimal", "set-fraction", "set-lazy")
     for i, mode in enumerate(modes[:4] if q else modes):
         out.append({"kind": "subproc", "name": f"subproc-{mode}", "app": mode,
@@ -97,9 +100,9 @@ def shards(tier, seed):
                     "batches": 1 if q else 8, "size": 400 if q else 1200})
     for i, pair in enumerate(("fresh/fresh", "fresh/deepcopy", "application/lazy", "deepcopy/deepcopy")):
         out.append({"kind": "cross", "name": f"cross-{pair}", "pair": pair, "n": 1700 if q else 30000})
-    for i in range(3 if q else 6):
-        out.append({"kind": "evolve", "name": f"evolve{i}", "part": i, "parts": 3 if q else 6,
-                    "random": 4 if q else 60})
+    for i in range(5 if q else 6):
+        out.append({"kind": "evolve", "name": f"evolve{i}", "part": i, "parts": 5 if q else 6,
+                    "random": 1 if q else 50})
     for i in range(5):
         out.append({"kind": "lazy", "name": f"lazy{i}", "part": i, "parts": 5})
     return out
@@ -359,6 +362,10 @@ def run_shard(spec, rec):
     rng = random.Random(spec["seed"])
     pools = Pools(R.default_model(pintload.REPO))
     kind = spec["kind"]
+    if kind == "misc":
+        run_containers(spec, rec, rng, pools, pint, pintload, CH)
+        run_exceptions(spec, rec, rng, pools, pint, pintload, CH)
+        return
     fn = {"rt": run_rt, "rtx": run_rtx, "containers": run_containers, "exceptions": run_exceptions,
           "subproc": run_subproc, "cross": run_cross, "evolve": run_evolve, "lazy": run_lazy}[kind]
     fn(spec, rec, rng, pools, pint, pintload, CH)
@@ -620,8 +627,8 @@ def judge_exception(rec, CH, e, tag, witness):
     before = CH.norm(CH.fp_obj(e))
     for via, p in ROUTES[:8]:
         rec.count("exception_roundtrips")
-        f = dict(via=via, cls=cname, origin=tag)
-        w = dict(witness, via=via, protocol=p, original=before)
+        f = dict(via=via, cls=cname)
+        w = dict(witness, via=via, protocol=p, original=before, origin=tag)
         try:
             r = do_route(e, via, p, CH)
         except Exception as ex:  # noqa: BLE001
@@ -653,7 +660,7 @@ def run_exceptions(spec, rec, rng, pools, pint, pintload, CH):
     classes = exception_classes(pint)
     for cname, cls in sorted(classes.items()):
         init = cls.__init__ if "__init__" in cls.__dict__ or any("__init__" in c.__dict__ for c in cls.__mro__[1:] if c.__module__.startswith("pint")) else None
-        for _ in range(spec["n"]):
+        for _ in range(spec["n_exc"]):
             if init is not None and init is not BaseException.__init__:
                 params = [p for p in list(inspect.signature(init).parameters.values())[1:]
                           if p.kind in (p.POSITIONAL_ONLY, p.POSITIONAL_OR_KEYWORD)]
@@ -684,7 +691,7 @@ def run_exceptions(spec, rec, rng, pools, pint, pintload, CH):
                               "fp": CH.norm(CH.fp_obj(e))})
             except Exception as ex:  # noqa: BLE001
                 rec.violation("exception-roundtrip-raised", {"site": k, "err": repr(ex)[:200]},
-                              via="pickle", cls=type(e).__name__, origin="raised-by-pint", exc=type(ex).__name__)
+                              via="pickle", cls=type(e).__name__, exc=type(ex).__name__)
     res = child(rec, {"job": "unpickle", "app": "lazy"}, items, spec)
     if res:
         for it, r in zip(items, res["items"]):
@@ -692,16 +699,16 @@ def run_exceptions(spec, rec, rng, pools, pint, pintload, CH):
             cname = it["fp"]["cls"]
             if "load_error" in r:
                 rec.violation("exception-roundtrip-raised", {"site": it["site"], "err": r["load_error"]},
-                              via="pickle-subprocess", cls=cname, origin="raised-by-pint", exc=r["load_error"].split(":")[0])
+                              via="pickle-subprocess", cls=cname, exc=r["load_error"].split(":")[0])
             elif r["fp"].get("cls") != cname:
                 rec.violation("exception-roundtrip", {"site": it["site"], "got": r["fp"]}, aspect="type",
-                              via="pickle-subprocess", cls=cname, origin="raised-by-pint")
+                              via="pickle-subprocess", cls=cname)
             else:
                 asp = exc_diff(rec, it["fp"], r["fp"])
                 if asp:
                     rec.violation("exception-roundtrip", {"site": it["site"], "original": it["fp"], "result": r["fp"],
                                                           "diff_at": first_diff(it["fp"], r["fp"])},
-                                  aspect=asp, via="pickle-subprocess", cls=cname, origin="raised-by-pint")
+                                  aspect=asp, via="pickle-subprocess", cls=cname)
 
 
 # ---------------------------------------------------------------------------
@@ -812,7 +819,7 @@ def run_subproc(spec, rec, rng, pools, pint, pintload, CH):
             if "ERR" in c and "ERR" not in a:
                 rec.violation("unpickled-object-unusable", dict(w, child=c, parent=a), **f)
             elif "ERR" not in a and "ERR" not in c:
-                if a["dim"] != c["dim"]:
+                if not approx(a["dim"], c["dim"]):
                     rec.violation("unpickled-object-differs", dict(w, child=c, parent=a), aspect="dimensionality", **f)
                 elif app_nit == nit and a["root"][0] != "ERR" and c["root"][0] != "ERR":
                     rec.count("subproc_root_values_compared")
@@ -1188,69 +1195,100 @@ def run_history(pintload, pint, CH, pre, post):
     return out
 
 
+GROUP_OPS = {"define_group", "get_group_new", "group_add_units", "group_remove_units", "group_add_groups"}
+
+
 def run_evolve(spec, rec, rng, pools, pint, pintload, CH):
     kinds = sorted(evolve_ops(random.Random(0), 0))
+    quick = spec.get("tier") == "quick"
     solo_bad = set()
+    static_bad = {False: set(), True: set()}
 
-    def report(pre, post, mism, mode):
-        evolved = sorted({s for s, _ in post})
-        for side, probe, got, want in mism[:6]:
-            fam = probe.split(":")[0] if probe not in ("op-outcome",) else probe
+    def fam_of(probe):
+        return probe.split(":")[0]
+
+    def report(pre, post, mism, mode, skip=()):
+        """One violation per probe family.  `ops` is a classifier only for op-outcome mismatches
+        (which op behaved differently IS the mechanism); for state probes the family, the side that
+        differs and the side that evolved identify it, the history goes into the witness."""
+        evolved = ",".join(sorted({s for s, _ in post})) or "none"
+        seen = set()
+        n = 0
+        failed_ops = {side for side, probe, _, _ in mism if probe == "op-outcome"}
+        for side, probe, got, want in mism:
+            fam = fam_of(probe)
+            if (side, fam) in seen or fam in skip:
+                continue
+            if side in failed_ops and fam != "op-outcome":
+                continue          # consequences of an op that did not go through on that side
+            seen.add((side, fam))
+            n += 1
+            opsf = "+".join(sorted({o["kind"] for _, o in post})) if fam == "op-outcome" else "*"
             rec.violation("deepcopy-evolution",
                           {"pre": [o["kind"] for o in pre], "post": [(s, o["kind"]) for s, o in post],
                            "ops": [o for _, o in post], "differs_on": side, "probe": probe,
                            "got": repr(got)[:300], "expected(twin)": repr(want)[:300], "n_mismatches": len(mism)},
-                          ops="+".join(sorted({o["kind"] for _, o in post})), evolved=",".join(evolved),
-                          differs_on=side, probe=fam, mode=mode)
+                          ops=opsf, evolved=evolved, differs_on=side, probe=fam, mode=mode)
+        return n
 
+    def warmups(ops):
+        return [ops["warm_caches"], ops["warm_groups_systems"], ops["parse_prefixed"]]
+
+    # (0) fidelity of the copy itself: no evolution at all, cold and warm source
+    for warm in (False, True):
+        pre = warmups(evolve_ops(rng, 0)) if warm else []
+        mism = run_history(pintload, pint, CH, pre, [])
+        rec.count("evolve_scenarios")
+        rec.case(("evolve-static", warm))
+        static_bad[warm] = {fam_of(p) for _, p, _, _ in mism}
+        if mism:
+            report(pre, [], mism, "no-evolution")
+        else:
+            rec.count("evolve_scenarios_clean")
+    skip_static = static_bad[False] | static_bad[True]
     # (A) one op kind at a time x side x cold/warm copy
     k = 0
     for ki, kind in enumerate(kinds):
         if ki % spec["parts"] != spec["part"]:
             continue
-        for side in ("copy", "source"):
-            for warm in (False, True):
-                k += 1
-                ops = evolve_ops(rng, k)
-                op = ops[kind]
-                pre = [ops["warm_caches"], ops["warm_groups_systems"], ops["parse_prefixed"]] if warm else []
-                mism = run_history(pintload, pint, CH, pre, [(side, op)])
-                rec.count("evolve_scenarios")
-                rec.observe("evolve_op_kinds", kind)
-                rec.case(("evolve-solo", kind, side, warm))
-                if mism:
-                    solo_bad.add((kind, side))
-                    report(pre, [(side, op)], mism, "single-op")
-                else:
-                    rec.count("evolve_scenarios_clean")
-    # every shard needs the complete solo verdicts for (B): quick re-run of the kinds of other parts
-    # is too slow, so (B) avoids, on BOTH sides, every group/system-object op kind that is known to go
-    # through SharedRegistryObject instances (they are covered and attributed in (A)).
-    risky = {kd for kd, _ in solo_bad} | {"define_group", "get_group_new", "group_add_units", "group_remove_units",
-                                         "group_add_groups"}
-    safe = [kd for kd in kinds if kd not in risky]
+        combos = [("copy", False), ("source", False), ("copy", True), ("source", True)]
+        if quick:
+            combos = [("copy", ki % 2 == 1), ("source", ki % 2 == 0)]
+        for side, warm in combos:
+            k += 1
+            ops = evolve_ops(rng, k)
+            op = ops[kind]
+            pre = warmups(ops) if warm else []
+            mism = run_history(pintload, pint, CH, pre, [(side, op)])
+            rec.count("evolve_scenarios")
+            rec.observe("evolve_op_kinds", kind)
+            rec.case(("evolve-solo", kind, side, warm))
+            if mism and report(pre, [(side, op)], mism, "single-op", skip_static):
+                solo_bad.update(fam_of(p) for _, p, _, _ in mism)
+            else:
+                rec.count("evolve_scenarios_clean")
+    # (B) random multi-op histories from the op kinds that are not already attributed in (A):
+    # group-object ops (known D15 mechanism) and whatever failed alone in this shard
+    safe = [kd for kd in kinds if kd not in GROUP_OPS]
+    skip_b = skip_static | (solo_bad - {"op-outcome"})
+    rec.observe("evolve_families_attributed_single_op", ",".join(sorted(skip_b)) or "-")
     for j in range(spec["random"]):
-        k += 1
-        pre, post, allops = [], [], []
+        pre, post = [], []
         for _ in range(rng.randint(0, 3)):
             k += 1
-            ops = evolve_ops(rng, k)
-            kd = rng.choice(safe)
-            pre.append(ops[kd])
+            pre.append(evolve_ops(rng, k)[rng.choice(safe)])
         for _ in range(rng.randint(2, 6)):
             k += 1
-            ops = evolve_ops(rng, k)
-            kd = rng.choice(safe)
-            post.append((rng.choice(("source", "copy")), ops[kd]))
-        mism = run_history(pintload, pint, CH, pre, post)
+            post.append((rng.choice(("source", "copy")), evolve_ops(rng, k)[rng.choice(safe)]))
+        live = lambda mm: [x for x in mm if fam_of(x[1]) not in skip_b]
+        mism = live(run_history(pintload, pint, CH, pre, post))
         rec.count("evolve_scenarios")
         rec.count("evolve_random_histories")
         rec.case(("evolve-random", tuple(o["kind"] for o in pre), tuple((s, o["kind"]) for s, o in post)))
         if not mism:
             rec.count("evolve_scenarios_clean")
             continue
-        # greedy shrink: drop ops while a mismatch remains
-        budget = 12
+        budget = 10                      # greedy shrink: drop ops while a mismatch remains
         changed = True
         while changed and budget > 0:
             changed = False
@@ -1262,7 +1300,7 @@ def run_evolve(spec, rec, rng, pools, pint, pintload, CH):
                 if not q2:
                     continue
                 budget -= 1
-                m2 = run_history(pintload, pint, CH, p2, q2)
+                m2 = live(run_history(pintload, pint, CH, p2, q2))
                 if m2:
                     pre, post, mism, changed = p2, q2, m2, True
                     break
@@ -1293,7 +1331,7 @@ def run_lazy(spec, rec, rng, pools, pint, pintload, CH):
         if not inst:
             if res["lazy_before"] != "LazyRegistry" or res["still_lazy_after_policy_query"] != "LazyRegistry":
                 rec.violation("lazy-built-too-early", {"trigger": trig, "before": res["lazy_before"]}, **f)
-            if res["class_after"] != "UnitRegistry":
+            if res["class_after"] != "UnitRegistry" and res["first"] == res["first_explicit"]:
                 rec.violation("lazy-not-built-by-trigger", {"trigger": trig, "class_after": res["class_after"]}, **f)
             if not res["default_is_app"]:
                 rec.violation("lazy-default-identity", {"trigger": trig}, **f)
@@ -1312,16 +1350,19 @@ def run_lazy(spec, rec, rng, pools, pint, pintload, CH):
             rec.violation("lazy-differs", {"trigger": trig, "lazy": res["first"], "explicit": res["first_explicit"]},
                           probe="trigger-result", **f)
         L, E = res["lazy"], res["explicit"]
-        nbad = 0
+        bad = {}
         for key in E:
             rec.count("lazy_probes")
             rec.case(("lazy", trig, key), nontrivial=E[key] != ["ERR", "AttributeError"])
             if L.get(key) != E[key]:
-                nbad += 1
-                if nbad <= 8:
-                    rec.violation("lazy-differs", {"trigger": trig, "probe": key, "lazy": repr(L.get(key))[:300],
-                                                   "explicit": repr(E[key])[:300]},
-                                  probe=key.split(":")[0], **f)
-        if not nbad:
+                bad.setdefault(key.split(":")[0], []).append(key)
+        # the battery goes through the module-level classes / the application-registry proxy; which
+        # trigger built the registry is witness data, the probe family is the mechanism
+        for fam, keys in bad.items():
+            key = keys[0]
+            rec.violation("lazy-differs", {"trigger": trig, "probe": key, "n_probes_in_family": len(keys),
+                                           "lazy": repr(L.get(key))[:300], "explicit": repr(E[key])[:300]},
+                          probe=fam)
+        if not bad:
             rec.count("lazy_batteries_clean")
         rec.sample({"trigger": trig, "probes": len(E), "policy": res["policy"]})
